@@ -2,6 +2,7 @@ import Resolvo.Graph
 import Resolvo.Abs.Fail
 import Resolvo.RenderTruth
 import Resolvo.MDet.CheckedProofs
+import Resolvo.MDet.ModelGraph
 /-!
 # C03 — a conflict report is a truthful, self-contained proof of unsatisfiability
 
@@ -57,6 +58,25 @@ theorem unsat_graph_checked (U : Universe) (P : Problem) (fuel : Nat) (s : MDet.
       reachableB (MDet.graphEdges (MDet.conflictGraphOf U st c)) (MDet.conflictGraphOf U st c).nodes.toList = true ∧
       ¬ ∃ a, evalCnf a (cnfOfGraph (MDet.graphEdges (MDet.conflictGraphOf U st c))) = true :=
   MDet.solveChecked_unsat_graph U P fuel s c h
+
+/-- **(a) for the exact model itself, with no checker in between** (all universes that respect the provider contract
+    `WFU` — listed candidates carry the package's name, locked and excluded solvables are candidates —, all problems, solver
+    states carried over from earlier solves incl. cache, cancellation plan and asynchronous completion order, fuel, and all
+    sets of blamed clauses): every edge of the conflict graph that the exact model of `Conflict::graph` builds from the
+    clause arena and variable map of the exact model of `Solver::solve` states a true fact of the provider's data. The
+    proof is an invariant of the model's encoder carried through every function of the model (`MDet/Truth.lean`,
+    `MDet/TruthSpec.lean`): each `Clauses::alloc` site of the encoder is shown to state a fact the provider gave. -/
+theorem edges_truthful_exact_model (U : Universe) (hU : MDet.WFU U) (P : Problem) (fuel : Nat) (s : MDet.S) (ids : List Nat) :
+    ∀ x ∈ Render.nodeEdges (MDet.modelGraph U (MDet.solveRun U P fuel s).2 ids), Render.EdgeTrue U P x.1 x.2.1 x.2.2 :=
+  MDet.modelGraph_edges_true U hU P fuel s ids
+
+/-- the invariant behind it: after every solve, every clause in the model's arena states a true fact -/
+theorem model_clauses_truthful (U : Universe) (hU : MDet.WFU U) (P : Problem) (fuel : Nat) (s : MDet.S) :
+    ∀ c ∈ (MDet.solveRun U P fuel s).2.clauses.toList, KindTrue U P (MDet.solveRun U P fuel s).2.origins c.kind :=
+  (MDet.solveRun_tinv U hU P fuel s).kinds
+
+/-- the provider contract is decidable; the driver evaluates it on every generated universe -/
+theorem provider_contract_decidable (U : Universe) (h : MDet.wfuB U = true) : MDet.WFU U := MDet.wfuB_sound U h
 
 /-! Non-vacuity: the graph "root requires {s0}; s0 requires a package without candidates". -/
 def exG : G := [⟨.root, .solv 0, .req (.single 0)⟩, ⟨.solv 0, .unresolved, .req (.single 1)⟩]
